@@ -511,13 +511,19 @@ class C07(BbProp):
                 out.append(viol("denied-op-did-not-raise", "client %d has %s access to %s but `%s` returned %s"
                                 % (c, "no write" if need_write else "no", a, o.op, o.R), op=op,
                                 registered=can_read(cl, a), alias=bool(hist["alias"]),
-                                stale_ns=bool(a in cl.get("n", ()) and not is_ns and o.R.startswith("fetcher"))))
+                                stale_ns=bool(a in cl.get("n", ()) and not is_ns and o.R.startswith("fetcher")),
+                                # stale_key: the key has left the client's access sets but is still in its remapping
+                                # table (left behind by an unregister_key that raised half-way, known finding K5)
+                                stale_key=bool(a in cl.get("m", {}) and a not in set(cl["r"]) | set(cl["w"])
+                                               | set(cl["x"]))))
             elif op != "unset" and o.R != "AttributeError":
                 out.append(viol("denied-op-wrong-exception", "`%s` raised %s instead of AttributeError" % (o.op, o.R),
                                 op=op))
             if prev.S != o.S:
                 out.append(viol("denied-op-changed-store", "`%s` without access changed the store" % o.op, op=op,
-                                registered=can_read(cl, a)))
+                                registered=can_read(cl, a), alias=bool(hist["alias"]),
+                                stale_key=bool(a in cl.get("m", {}) and a not in set(cl["r"]) | set(cl["w"])
+                                               | set(cl["x"]))))
         else:
             if o.R == "AttributeError":
                 out.append(viol("granted-op-denied", "client %d has access to %s but `%s` raised AttributeError"
